@@ -479,6 +479,26 @@ func (g *c02Gen) finish(name string) *c02Text {
 }
 
 // c02RandomText builds one text of 1..6 top level forms.
+// c02HugeText concatenates random forms (each accepted by `accept`, i.e. readable on its own) up to
+// about size bytes — more than one 64 KiB read block of the stream readers.
+func c02HugeText(rng *lib.Rng, base int, size int, accept func([]byte) bool) *c02Text {
+	var buf []byte
+	for tries := 0; len(buf) < size && tries < 200000; tries++ {
+		g := newC02Gen(rng, base)
+		g.form(0)
+		if !g.clean || !accept(g.buf) {
+			continue
+		}
+		buf = append(buf, g.buf...)
+		if rng.Chance(30) {
+			buf = append(buf, '\n')
+		} else {
+			buf = append(buf, ' ')
+		}
+	}
+	return &c02Text{Name: "huge", Text: buf, Open: make([]bool, len(buf)+1), Inner: make([]bool, len(buf)+1), Kinds: []string{"huge"}, Toks: 2}
+}
+
 func c02RandomText(rng *lib.Rng, base int, big bool) *c02Text {
 	g := newC02Gen(rng, base)
 	if rng.Chance(15) {
